@@ -5,6 +5,7 @@
 -/
 import AeicProofs.Lemmas.MergeRead
 import AeicProofs.Lemmas.MergeProto
+import AeicProofs.Lemmas.Locate
 
 namespace C09
 open Aeic.Store Aeic.Merge
@@ -152,5 +153,31 @@ example :
     let top : String → Option StoreFile := fun n => if n = "a" then some a else if n = "b" then some b else if n = "c" then some c else none
     validate ⟨top, none⟩ ["a", "b"] = .error .fieldSets ∧ validate ⟨top, none⟩ ["a", "c"] = .error .indexability := by
   constructor <;> rfl
+
+/-! ### the lookup arithmetic of the SOURCE (`Gen.loc*`, regenerated from `trajectories/store.py` on every run) -/
+
+/-- what the translator read: the file search is `bisect_left(size_index, index + 1)` or the equivalent
+    `bisect_right(size_index, index)`; the lookup gives up past the last file; the local index is `index − size_index[file]` with no
+    further offsets; the size index is the list of cumulative counts — decided by the kernel on the regenerated parameters -/
+theorem src_locate_parameters :
+    ((Aeic.Gen.locBisectLeft = true ∧ Aeic.Gen.locNeedle = 1) ∨ (Aeic.Gen.locBisectLeft = false ∧ Aeic.Gen.locNeedle = 0)) ∧
+    Aeic.Gen.locLocal = 0 ∧ Aeic.Gen.locShift = 0 ∧ Aeic.Gen.locGuardGe = true ∧ Aeic.Gen.locSizeIndexCumulative = true := by
+  decide
+
+/-- the merged lookup as the working tree has it IS the model's `locate` … -/
+theorem src_locate_is_model {α} (files : List (List α)) (i : Nat) : locateSrc files i = locate files i := by
+  unfold locateSrc
+  rw [src_locate_parameters.2.1, src_locate_parameters.2.2.1]
+  exact locateWith_eq _ _ _ src_locate_parameters.1 files i
+
+/-- … **so reading index `i` of a merged store through the arithmetic of the source is indexing the concatenation of its inputs**,
+    for every list of inputs (empty files included) and every index (out of range ⇒ nothing is loaded) -/
+theorem src_merged_get_eq_concat {α} (files : List (List α)) (i : Nat) : locateSrc files i = files.flatten[i]? := by
+  rw [src_locate_is_model]; exact merged_get_eq_concat files i
+
+/-- the parameters matter: with the needle `index` instead of `index + 1` (and `bisect_left`) the first trajectory of the second
+    file is read from the first file — kernel-checked witness, so the theorem above is not insensitive to what the translator reads -/
+example : locateWith true 0 0 0 true [[10, 11], [20, 21]] 2 = some 10 ∧ ([[10, 11], [20, 21]] : List (List Nat)).flatten[2]? = some 20 := by
+  decide
 
 end C09
